@@ -103,6 +103,31 @@ def handle (op : String) (args : List String) (impl : Option (List String)) : St
         | _ => false
       (out, pv)
     | _, _ => ("BADOP", none)
+  | "HASHSEQ", [items] | "HASHSEQO", [items] =>
+    -- digests computed one after the other through one hash-type / hash object: each is the digest of its own message
+    let parsed : Option (List (Nat × Option (List Bytes))) := (items.splitOn ";").mapM fun it =>
+      match it.splitOn ":" with
+      | [t, segs] => match t.toNat? with
+        | some t => if segs == "!" then some (t, none) else ((segs.splitOn "|").mapM parseHex).map fun s => (t, some s)
+        | none => none
+      | _ => none
+    match parsed with
+    | some its =>
+      let fin := its.filterMap fun (t, s) => s.map fun s => (t, s)
+      let ds := fin.mapM fun (t, s) => if op == "HASHSEQ" then Sha.bundledHash t s else Sha.zckHash t s.flatten
+      let out := match ds with
+        | some ds => "OK " ++ (if ds.isEmpty then "-" else ",".intercalate (ds.map toHex))
+        | none => "ERR"
+      let pv := impl.map fun i => match i with
+        | ["OK", d] =>
+          let got := if d == "-" then some [] else (d.splitOn ",").mapM parseHex
+          match got with
+          | some got => got.length == fin.length && (fin.zip got).all fun ((t, s), g) => C18.c18_ok t s g
+          | none => false
+        | ["ERR"] => ds.isNone
+        | _ => false
+      (out, pv)
+    | none => ("BADOP", none)
   | _, _ => ("BADOP", none)
 
 /-! ### file-based ops -/
@@ -648,6 +673,9 @@ def handleIO (op : String) (args : List String) (impl : Option (List String)) : 
         par.length == n && ser.length == n && (List.range n).all fun t => (fin t).2.reverse == par.getD t ["??"]
       | _ => false
     return ("OK", pv)
+  | "DLFEED", [tpath, fl, maxr, hdrs, bodyPath, cuts, mode, expect, _warm] =>
+    -- what the process did before on contexts of their own (`warm=`) plays no part in the model: no state outside the contexts
+    handleIO "DLFEED" [tpath, fl, maxr, hdrs, bodyPath, cuts, mode, expect] impl
   | "DLFEED", [tpath, fl, maxr, hdrs, bodyPath, cuts, mode, expect] =>
     -- `<tpath>.before` = the target as it was before the op (the harness writes into tpath)
     let tb ← readFile (tpath ++ ".before")
